@@ -102,6 +102,7 @@ class UnitResult:
         self.canary_missing = []
         self.canary_total = 0
         self.tobl_lines = {}
+        self.degraded = []
         self.impl_of = {}
 
 
@@ -155,13 +156,26 @@ def run_unit(unit, tier):
     tmpl = os.path.join(VERIF, "units", unit + ".rs")
     os.makedirs(BUILD, exist_ok=True)
     gen = os.path.join(BUILD, unit + ".rs")
-    try:
-        m = extract.generate(tmpl, gen, canary=False)
+    def gen_all(lenient):
+        m_ = extract.generate(tmpl, gen, canary=False, lenient=lenient)
         levels = extract.canary_levels(tmpl)
-        cans = []
+        cans_ = []
         for k, lv in enumerate(levels):
             cp = os.path.join(BUILD, "%s_canary%d.rs" % (unit, k))
-            cans.append((cp, extract.generate(tmpl, cp, canary=lv)))
+            cans_.append((cp, extract.generate(tmpl, cp, canary=lv, lenient=lenient)))
+        return m_, cans_
+    try:
+        try:
+            m, cans = gen_all(False)
+        except extract.ExtractError as e:
+            if "lost anchor" not in str(e):
+                raise
+            # a proof-hint anchor is gone (the function was restructured): retry without the hints that cannot be placed.
+            # The contract clauses themselves are attached to the signature and are still checked.
+            m, cans = gen_all(True)
+            res.degraded = m.get("lost_hints", [])
+            if not res.degraded:
+                raise
     except (extract.ExtractError, LookupError) as e:
         res.undecided.append("extract: " + str(e))
         return res
